@@ -100,4 +100,20 @@ theorem sphereAt_self (rngs : Array Rng) (o dim : Nat) (h : o < rngs.size) :
   unfold sphereAt
   simp [Array.getElem?_eq_getElem h]
 
+/-- the fixed copy constructor (/repo af02ab991): the copy is a new object bound to *itself*.  Its sphere routine is the
+routine of its own engine state (which is the original's at the time of the copy), leaves the original alone, and
+after `setLocalSeed s` on the copy it prints what a fresh `RNG(s)` prints. -/
+theorem sphereAt_fixed_copy (rngs : Array Rng) (k dim : Nat) (h : k < rngs.size) (s : UInt64) :
+    (sphereAt (rngs.push rngs[k]) rngs.size dim).1 = (rngs[k].uniformNormalVector dim).1 ∧
+      (sphereAt (rngs.push rngs[k]) rngs.size dim).2[k]? = some rngs[k] ∧
+      (sphereAt ((rngs.push rngs[k]).setIfInBounds rngs.size (rngs[k].setLocalSeed s)) rngs.size dim).1 =
+        ((Rng.create s).uniformNormalVector dim).1 := by
+  refine ⟨?_, ?_, ?_⟩
+  · simp [sphereAt]
+  · have hne : k ≠ rngs.size := Nat.ne_of_lt h
+    rw [sphereAt_leaves_other _ k rngs.size dim hne]
+    simp [Array.getElem?_push, hne, h]
+  · have := uniformNormalVector_sim (setLocalSeed_sim_create rngs[k] s) dim
+    simp [sphereAt, this.1]
+
 end OmplModel.Rng
